@@ -13,12 +13,13 @@ import (
 // Syntactic category of what a template function's output stands for in the
 // generated Go text. Placeholders are rendered accordingly so that every
 // variant is parseable Go:
-//   catIdent: an identifier            ƒname·arg·arg
-//   catType:  a type                   Ƭname·arg
-//   catExpr:  an expression / value list   ƒname(arg, arg)  (string arguments are spliced in as Go expressions)
-//   catStmt:  a statement              ƒname(arg, arg)
-//   catBool:  only used in conditions (atom)
-//   catText:  free text inside a literal or comment
+//
+//	catIdent: an identifier            ƒname·arg·arg
+//	catType:  a type                   Ƭname·arg
+//	catExpr:  an expression / value list   ƒname(arg, arg)  (string arguments are spliced in as Go expressions)
+//	catStmt:  a statement              ƒname(arg, arg)
+//	catBool:  only used in conditions (atom)
+//	catText:  free text inside a literal or comment
 const (
 	catIdent = iota
 	catType
@@ -47,7 +48,7 @@ var funcCategory = map[string]int{
 	"formatDoc": catEmpty, "reserveFieldOrMethod": catEmpty,
 	"fieldLabel": catText, "redactedContent": catText, "tag": catText,
 	"zapTypedefGenerateMarshaler": catExpr,
-	"namePrefix": catIdent, "params": catParams, "newArgs": catExpr, "isException": catExpr, "wrapResponse": catExpr, "unwrapResponse": catExpr,
+	"namePrefix":                  catIdent, "params": catParams, "newArgs": catExpr, "isException": catExpr, "wrapResponse": catExpr, "unwrapResponse": catExpr,
 	"enumItemLabelName": catText, "zapMapItemMarshaler": catExpr, "canBeConstant": catBool, "index": catData,
 }
 
@@ -61,10 +62,10 @@ type Options struct {
 type Variant struct {
 	Atoms     map[string]bool
 	Consulted map[string]bool // atoms the template actually tested in this assignment
-	Src   string
-	File  *ast.File
-	Fset  *token.FileSet
-	Err   error
+	Src       string
+	File      *ast.File
+	Fset      *token.FileSet
+	Err       error
 }
 
 // Expansion holds all variants of one template.
